@@ -142,7 +142,7 @@ def one_call(ts, a, rng, S):
         return [[scaled(r[w][i], dens[i], spans[w] if sn else 1) for i in range(len(indexes))] for w in range(nw)]
     res = run(warg, windows)
     call = dict(stat=stat, mode=mode, polarised=1 if polarised else 0, span_normalise=1 if sn else 0, sets=sets, indexes=indexes, windows=windows,
-                result=res, fine_windows=[], fine_result=[], threaded=[], general=1 if use_general else 0, wkind=wkind)
+                result=res, fine_windows=[], fine_result=[], threaded=[], general=1 if use_general else 0, wkind=wkind, kind="count")
     if mode != "node" and L > 1 and rng.random() < 0.6:
         fw = refine(rng, windows, L)
         call["fine_windows"] = fw
@@ -175,7 +175,283 @@ def divmat_call(ts, a, rng, S):
     spans = [w[i + 1] - w[i] for i in range(len(w) - 1)]
     res = [[scaled(D0[q][i][j], len(sets[i]) * len(sets[j]), spans[q] if sn else 1) for (i, j) in pairs] for q in range(len(w) - 1)]
     return dict(stat="divergence", mode=mode, polarised=0, span_normalise=1 if sn else 0, sets=sets, indexes=[list(p) for p in pairs], windows=w,
-                result=res, fine_windows=[], fine_result=[], threaded=outs, general=0, wkind="divmat")
+                result=res, fine_windows=[], fine_result=[], threaded=outs, general=0, wkind="divmat", kind="count")
+
+
+# ---------------------------------------------------------------------------------------------------------
+# further statistics named by the property (definitions in TskStats, second half)
+INEXACT = [123456789, 1]
+
+
+def frac(v, maxden=10 ** 7):
+    """float -> reduced fraction [p, q]; nan -> [0, 0]; a value that is not (to 1e-9) a small fraction is rejected"""
+    v = float(v)
+    if v != v or v in (float("inf"), float("-inf")):
+        return [0, 0]
+    fr = Fraction(v).limit_denominator(maxden)
+    if abs(float(fr) - v) > 1e-9 * max(1.0, abs(v)):
+        return INEXACT
+    return [fr.numerator, fr.denominator]
+
+
+def disjoint_sets(rng, pool, k, min_size=1, cover=False):
+    pool = pool[:]
+    rng.shuffle(pool)
+    if len(pool) < k * min_size:
+        return None
+    sets = [[pool.pop() for _ in range(min_size)] for _ in range(k)]
+    for u in pool:
+        if cover or rng.random() < 0.7:
+            sets[rng.randrange(k)].append(u)
+    return [sorted(x) for x in sets]
+
+
+def base(kind, stat, mode, **kw):
+    d = dict(kind=kind, stat=stat, mode=mode, polarised=0, span_normalise=0, sets=[], indexes=[], windows=[], result=[], fine_windows=[],
+             fine_result=[], threaded=[], general=0, wkind=kind)
+    d.update(kw)
+    return d
+
+
+def pick_windows(rng, L):
+    if rng.random() < 0.3:
+        return [0, L], None
+    w = random_windows(rng, L)
+    return w, [float(x) for x in w]
+
+
+def afs_call(ts, a, rng, S):
+    sets = disjoint_sets(rng, S, rng.randint(1, 2))
+    if sets is None:
+        return None
+    mode = rng.choice(["site", "branch"])
+    pol = rng.random() < 0.5
+    sn = rng.random() < 0.5
+    windows, warg = pick_windows(rng, a["L"])
+
+    def run(w, wa):
+        r = np.array(ts.allele_frequency_spectrum(sets, windows=wa, mode=mode, span_normalise=sn, polarised=pol), dtype=float)
+        r = r.reshape((len(w) - 1, -1))
+        mult = 2 if (mode == "site" and not pol) else 1
+        return [[scaled(v, mult, (w[q + 1] - w[q]) if sn else 1) for v in r[q]] for q in range(len(w) - 1)]
+    c = base("afs", "afs", mode, polarised=1 if pol else 0, span_normalise=1 if sn else 0, sets=sets, windows=windows, result=run(windows, warg))
+    if a["L"] > 1 and rng.random() < 0.6:
+        fw = refine(rng, windows, a["L"])
+        c["fine_windows"] = fw
+        c["fine_result"] = run(fw, [float(x) for x in fw])
+    return c
+
+
+def fst_call(ts, a, rng, S):
+    sets = disjoint_sets(rng, S, rng.randint(2, 3), min_size=2)
+    if sets is None:
+        return None
+    k = len(sets)
+    indexes = [list(p) for p in rng.sample(list(itertools.permutations(range(k), 2)), rng.randint(1, 2))]
+    mode = rng.choice(["site", "branch"])
+    sn = rng.random() < 0.5
+    windows, warg = pick_windows(rng, a["L"])
+    r = np.array(ts.Fst(sets, indexes=[tuple(i) for i in indexes], windows=warg, mode=mode, span_normalise=sn), dtype=float).reshape((len(windows) - 1, len(indexes)))
+    return base("fst", "Fst", mode, span_normalise=1 if sn else 0, sets=sets, indexes=indexes, windows=windows,
+                result=[[frac(v) for v in row] for row in r])
+
+
+def relatedness_call(ts, a, rng, S):
+    sets = disjoint_sets(rng, S, rng.randint(2, 3))
+    if sets is None or any(len(x) > 3 for x in sets):
+        return None
+    k = len(sets)
+    indexes = [list(p) for p in rng.sample(list(itertools.product(range(k), repeat=2)), rng.randint(1, 2))]
+    mode = rng.choice(["site", "branch"])
+    sn = rng.random() < 0.5
+    pol = rng.random() < 0.6
+    centre = rng.random() < 0.6
+    windows, warg = pick_windows(rng, a["L"])
+    n = [len(x) for x in sets]
+    P = 1
+    for x in n:
+        P *= x
+
+    def run(w, wa):
+        r = np.array(ts.genetic_relatedness(sets, indexes=[tuple(i) for i in indexes], windows=wa, mode=mode, span_normalise=sn, polarised=pol,
+                                            proportion=False, centre=centre), dtype=float).reshape((len(w) - 1, len(indexes)))
+        return [[scaled(r[q][i], (k * P) ** 2 if centre else n[indexes[i][0]] * n[indexes[i][1]], (w[q + 1] - w[q]) if sn else 1)
+                 for i in range(len(indexes))] for q in range(len(w) - 1)]
+    c = base("relatedness", "genetic_relatedness", mode, polarised=1 if pol else 0, centre=1 if centre else 0, span_normalise=1 if sn else 0,
+             sets=sets, indexes=indexes, windows=windows, result=run(windows, warg))
+    if a["L"] > 1 and rng.random() < 0.5:
+        fw = refine(rng, windows, a["L"])
+        c["fine_windows"] = fw
+        c["fine_result"] = run(fw, [float(x) for x in fw])
+    return c
+
+
+GENF = {"x1": lambda x, T: x[0], "x1cx2": lambda x, T: x[0] * (T[1] - x[1]), "sq": lambda x, T: x[0] * x[0] + x[1]}
+
+
+def general_call(ts, a, rng, S):
+    W = [[rng.randint(-2, 3), rng.randint(-2, 3)] for _ in S]
+    T = [sum(r[0] for r in W), sum(r[1] for r in W)]
+    fname = rng.choice(sorted(GENF))
+    mode = rng.choice(["site", "branch", "node"])
+    pol = rng.random() < 0.5
+    sn = rng.random() < 0.5
+    windows, warg = pick_windows(rng, a["L"])
+
+    def run(w, wa):
+        r = np.array(ts.general_stat(np.array(W, dtype=float), lambda x: np.array([GENF[fname](x, T)], dtype=float), 1, windows=wa, mode=mode,
+                                     span_normalise=sn, polarised=pol, strict=False), dtype=float)
+        nw = len(w) - 1
+        if mode == "node":
+            r = r.reshape((nw, ts.num_nodes))
+            return [[scaled(r[q][u], 1, (w[q + 1] - w[q]) if sn else 1) for u in range(ts.num_nodes)] for q in range(nw)]
+        r = r.reshape((nw, 1))
+        return [[scaled(r[q][0], 1, (w[q + 1] - w[q]) if sn else 1)] for q in range(nw)]
+    c = base("general", "general_stat", mode, polarised=1 if pol else 0, span_normalise=1 if sn else 0, windows=windows, weights=W, fname=fname,
+             result=run(windows, warg))
+    if mode != "node" and a["L"] > 1 and rng.random() < 0.5:
+        fw = refine(rng, windows, a["L"])
+        c["fine_windows"] = fw
+        c["fine_result"] = run(fw, [float(x) for x in fw])
+    return c
+
+
+def gnn_call(ts, a, rng, S):
+    nodes = list(range(ts.num_nodes))
+    pool = S if rng.random() < 0.6 else nodes
+    sets = disjoint_sets(rng, pool, rng.randint(1, 3))
+    if sets is None:
+        return None
+    focal = [rng.choice(nodes) for _ in range(rng.randint(1, 4))]
+    outs = []
+    for nt in (0, 1, 2, 3):
+        r = np.array(ts.genealogical_nearest_neighbours(focal, sets, num_threads=nt), dtype=float).reshape((len(focal), len(sets)))
+        outs.append([[frac(v) for v in row] for row in r])
+    return base("gnn", "gnn", "tree", sets=sets, focal=focal, result=outs[0], threaded=outs)
+
+
+def meandesc_call(ts, a, rng, S):
+    nodes = list(range(ts.num_nodes))
+    pool = S if rng.random() < 0.6 else nodes
+    sets = disjoint_sets(rng, pool, rng.randint(1, 3))
+    if sets is None:
+        return None
+    r = np.array(ts.mean_descendants(sets), dtype=float).reshape((ts.num_nodes, len(sets)))
+    return base("meandesc", "mean_descendants", "tree", sets=sets, result=[[frac(v) for v in row] for row in r])
+
+
+def paircoal_call(ts, a, rng, S):
+    sets = disjoint_sets(rng, S, rng.randint(1, 3))
+    if sets is None:
+        return None
+    k = len(sets)
+    allidx = [(i, j) for i in range(k) for j in range(i, k)]
+    indexes = [list(p) for p in rng.sample(allidx, rng.randint(1, min(2, len(allidx))))]
+    windows, warg = pick_windows(rng, a["L"])
+    r = np.array(ts.pair_coalescence_counts(sets, indexes=[tuple(i) for i in indexes], windows=warg, span_normalise=False, pair_normalise=False),
+                 dtype=float).reshape((len(windows) - 1, len(indexes), ts.num_nodes))
+    return base("paircoal", "pair_coalescence_counts", "tree", sets=sets, indexes=indexes, windows=windows,
+                result=[[[scaled(v, 1, 1) for v in r[q][i]] for i in range(len(indexes))] for q in range(len(windows) - 1)])
+
+
+def _ancestors(t, u):
+    u = t.parent(u)
+    while u != tskit.NULL:
+        yield u
+        u = t.parent(u)
+
+
+def treedist_call(ts, a, rng, S):
+    """rf_distance and kc_distance between two trees of the same tree sequence (both with a single root)"""
+    if ts.num_trees < 2:
+        return None
+    cells = list(range(a["L"]))
+    x, y = rng.sample(cells, 2) if len(cells) > 1 else (0, 0)
+    t1 = ts.at(x, sample_lists=True)
+    t2 = ts.at(y, sample_lists=True)
+    if t1.num_roots != 1 or t2.num_roots != 1:
+        return None
+    rf = int(t1.rf_distance(t2))
+    kc = []
+    # the KC metric is defined on trees whose labelled nodes are tips of the sample genealogy: a sample that is an ancestor of another
+    # sample has no documented treatment (the library leaves such pairs at 0), so those trees are not compared (DESIGN 10.1)
+    nested = any(t.parent(u) != tskit.NULL and any(v != u and t.is_sample(v) for v in _ancestors(t, u)) for t in (t1, t2) for u in ts.samples())
+    for lam in (0.0, 1.0):
+        if nested:
+            kc.append(-1)
+            continue
+        try:
+            v = float(t1.kc_distance(t2, lam))
+            sq = v * v
+            kc.append(int(round(sq)) if abs(sq - round(sq)) < 1e-6 * max(1.0, sq) else -2)
+        except tskit.LibraryError:
+            kc.append(-1)   # documented refusals: unary nodes
+    return base("treedist", "treedist", "tree", x=x, y=y, rx=int(t1.root), ry=int(t2.root), rf=rf, kc0=kc[0], kc1=kc[1])
+
+
+def ld_case(rng):
+    """a tree sequence whose sites carry exactly one mutation each (the LdCalculator's infinite-sites requirement)"""
+    a = gen.coalescent_abstract(rng, nleaves=rng.randint(3, 5), ninternal=rng.randint(2, 4), K=rng.randint(2, 5), p_internal_sample=rng.choice([0.0, 0.0, 0.3]))
+    for s_, x in enumerate(sorted(rng.sample(range(a["L"]), rng.randint(2, a["L"])))):
+        a["sites"].append(dict(pos=x, anc=0))
+        a["muts"].append(dict(site=s_, node=rng.randrange(len(a["time"])), der=1, parent=-1, time=-1))
+    ts = gen.build_tables(a).tree_sequence()
+    if ts.num_samples < 2:
+        return None
+    ld = tskit.LdCalculator(ts)
+    M1 = np.array(ld.r2_matrix(), dtype=float)
+    M2 = np.array(ts.ld_matrix(), dtype=float)
+    pairs = []
+    for i in range(ts.num_sites):
+        for j in range(ts.num_sites):
+            if i != j:
+                vals = [frac(ld.r2(i, j)), frac(M1[i][j]), frac(M2[i][j])]
+                v = vals[0] if all(q == vals[0] for q in vals) else INEXACT + [vals]
+                pairs.append([i, j, v[:2]])
+    return dict(ts=dict(L=a["L"], time=a["time"], flags=a["flags"], edges=a["edges"], sites=a["sites"], muts=a["muts"]),
+                calls=[base("ld", "r2", "site", pairs=pairs)])
+
+
+def tajd_calls(ts, a, rng, S):
+    """Tajima's D is a floating-point function of diversity and segregating_sites: the two ingredients are validated by TLC (count kind),
+    the formula itself is evaluated here"""
+    sets = disjoint_sets(rng, S, rng.randint(1, 2), min_size=2)
+    if sets is None:
+        return []
+    mode = rng.choice(["site", "branch"])
+    windows, warg = pick_windows(rng, a["L"])
+    nw = len(windows) - 1
+    out = []
+    T = np.array(ts.diversity(sets, windows=warg, mode=mode, span_normalise=False), dtype=float).reshape((nw, len(sets)))
+    Sg = np.array(ts.segregating_sites(sets, windows=warg, mode=mode, span_normalise=False), dtype=float).reshape((nw, len(sets)))
+    for stat, r in (("diversity", T), ("segregating_sites", Sg)):
+        out.append(base("count", stat, mode, sets=sets, indexes=[[j] for j in range(len(sets))], windows=windows,
+                        result=[[scaled(r[q][j], den(stat, [len(sets[j])]), 1) for j in range(len(sets))] for q in range(nw)]))
+    D = np.array(ts.Tajimas_D(sets, windows=warg, mode=mode), dtype=float).reshape((nw, len(sets)))
+    ok = 1
+    for q in range(nw):
+        for j, s_ in enumerate(sets):
+            n = len(s_)
+            h = sum(1.0 / i for i in range(1, n))
+            g = sum(1.0 / i ** 2 for i in range(1, n))
+            aa = (n + 1) / (3 * (n - 1) * h) - 1 / h ** 2
+            bb = 2 * (n ** 2 + n + 3) / (9 * n * (n - 1)) - (n + 2) / (h * n) + g / h ** 2
+            var = aa * Sg[q][j] + (bb / (h ** 2 + g)) * Sg[q][j] * (Sg[q][j] - 1)
+            exp = (T[q][j] - Sg[q][j] / h) / np.sqrt(var) if var > 0 else float("nan")
+            got = D[q][j]
+            if not ((exp != exp and (got != got or abs(got) == float("inf"))) or abs(exp - got) <= 1e-9 * max(1.0, abs(exp))):
+                ok = 0
+    out.append(base("derived", "Tajimas_D", mode, sets=sets, windows=windows, ok=ok))
+    return out
+
+
+EXTRA = [afs_call, afs_call, fst_call, relatedness_call, general_call, general_call, gnn_call, meandesc_call, paircoal_call, treedist_call]
+
+
+def nonzero(r):
+    if isinstance(r, list):
+        return any(nonzero(v) for v in r)
+    return r not in (0, None)
 
 
 def chunk_replay(chk):
@@ -217,9 +493,13 @@ def run():
     chk.exhaustive = True
     nchunk = chunk_replay(chk)
     cases = []
-    for i in range(2500 if QUICK else 30000):
-        a = gen.random_abstract(rng, N=rng.randint(3, 7), K=rng.randint(1, 6), max_edges=12, nsites=4, nmuts=4, nalleles=3,
-                                p_internal_sample=rng.choice([0.0, 0.15]))
+    for i in range(1400 if QUICK else 20000):
+        if i % 2 == 0:
+            a = gen.random_abstract(rng, N=rng.randint(3, 7), K=rng.randint(1, 6), max_edges=12, nsites=4, nmuts=4, nalleles=3,
+                                    p_internal_sample=rng.choice([0.0, 0.15]))
+        else:   # sample-rich, coalescent-like
+            a = gen.add_sites(gen.coalescent_abstract(rng, nleaves=rng.randint(3, 5), ninternal=rng.randint(2, 4), K=rng.randint(1, 5),
+                                                      p_internal_sample=rng.choice([0.0, 0.0, 0.3])), rng, nsites=4, nmuts=3, nalleles=3)
         S = [u for u in range(len(a["time"])) if a["flags"][u]]
         if len(S) < 2:
             continue
@@ -247,19 +527,42 @@ def run():
             c = divmat_call(ts, a, rng, S)
             if c:
                 calls.append(c)
+        for fn in rng.sample(EXTRA, 3):
+            c = fn(ts, a, rng, S)
+            if c:
+                calls.append(c)
+        if rng.random() < 0.3:
+            calls.extend(tajd_calls(ts, a, rng, S))
         if calls:
             cases.append(dict(ts=dict(L=a["L"], time=a["time"], flags=a["flags"], edges=a["edges"], sites=a["sites"], muts=a["muts"]), calls=calls))
+    for _ in range(150 if QUICK else 2000):
+        c = ld_case(rng)
+        if c:
+            cases.append(c)
+    # binding self-test: one recorded value of one call of each kind is changed; TLC must reject exactly those
     corrupted = []
+    seen_kinds = {}
     for c in cases:
-        if len(corrupted) >= 8:
-            break
-        d = copy.deepcopy(c)
-        cl = d["calls"][0]
-        if cl["mode"] == "node":
-            cl["result"][0][0][0] += 1
-        else:
-            cl["result"][0][0] += 1
-        corrupted.append(d)
+        for ci, cl in enumerate(c["calls"]):
+            kd = cl["kind"] + ("/node" if cl["mode"] == "node" else "")
+            if seen_kinds.get(kd, 0) >= 2 or cl["kind"] == "derived":
+                continue
+            d = copy.deepcopy(c)
+            d["calls"] = [d["calls"][ci]]
+            x = d["calls"][0]
+            if x["kind"] == "treedist":
+                x["rf"] += 1
+            elif x["kind"] == "ld":
+                x["pairs"][0][2] = [x["pairs"][0][2][0] + 1, max(1, x["pairs"][0][2][1]) + 1]
+            elif x["kind"] in ("fst", "gnn", "meandesc"):
+                x["result"][0][0] = [x["result"][0][0][0] + 1, x["result"][0][0][1] + 2]
+            elif x["kind"] == "paircoal" or x["mode"] == "node" and x["kind"] == "count":
+                x["result"][0][0][0] += 1
+            else:
+                x["result"][0][0] += 1
+            x["fine_windows"], x["fine_result"] = [], []
+            seen_kinds[kd] = seen_kinds.get(kd, 0) + 1
+            corrupted.append(d)
     cv, _ = common.tlc_validate("Trace_Stats", corrupted, chunks=4)
     acc = sum(1 for d in corrupted if not cv[d["id"]])
     chk.extra["binding_selftest"] = dict(corrupted=len(corrupted), rejected=len(corrupted) - acc)
@@ -270,10 +573,10 @@ def run():
     hist = {}
     for c in cases:
         for cl in c["calls"]:
-            key = "%s/%s/%s" % (cl["stat"], cl["mode"], "general" if cl["general"] else "named")
+            key = "%s/%s/%s" % (cl["stat"], cl["mode"], "general" if cl["general"] else cl["kind"])
             hist[key] = hist.get(key, 0) + 1
         chk.note_case(dict(ts=c["ts"], calls=[[x["stat"], x["mode"], x["polarised"], x["span_normalise"], x["sets"], x["indexes"], x["windows"]] for x in c["calls"]]),
-                      any(any(v != 0 for row in x["result"] for v in (row if x["mode"] != "node" else [q for r in row for q in r])) for x in c["calls"]))
+                      any(nonzero(x.get("result")) or x["kind"] in ("treedist", "ld", "derived") for x in c["calls"]))
         f = verdicts[c["id"]]
         if f:
             chk.violation("trace rejected by Trace_Stats: %s %s" % (sorted(f), st["eval_errors"].get(c["id"], "")[-300:]), c)
@@ -281,15 +584,26 @@ def run():
             chk.traces += 1
     chk.extra.update(cases=len(cases), calls=sum(len(c["calls"]) for c in cases), call_kinds=len(hist), chunk_layouts=nchunk,
                      threaded_calls=sum(1 for c in cases for x in c["calls"] if x["threaded"]),
-                     refinement_checks=sum(1 for c in cases for x in c["calls"] if x["fine_windows"]))
+                     refinement_checks=sum(1 for c in cases for x in c["calls"] if x["fine_windows"]),
+                     calls_by_statistic=dict(sorted(hist.items())),
+                     kc_compared=sum(1 for c in cases for x in c["calls"] if x["kind"] == "treedist" for q in ("kc0", "kc1") if x[q] >= 0),
+                     ld_pairs=sum(len(x["pairs"]) for c in cases for x in c["calls"] if x["kind"] == "ld"))
     c = cases[0]
     chk.sample(dict(ts=c["ts"], call={k: v for k, v in c["calls"][0].items() if k not in ("fine_result",)}))
-    chk.rule = ("random ts (3-7 nodes, integer coordinates and times, multiallelic / recurrent sites, multiple roots, internal samples) x 9 named statistics "
-                "and sample_count_stat (polarised or not) x site/branch/node x integer / 'trees' / 'sites' / no windows x span_normalise, random window "
-                "refinements, divergence_matrix with num_threads in {0,1,2,3,5,8}; non-trivial = some non-zero result")
+    chk.rule = ("random ts (3-7 nodes, integer coordinates and times, multiallelic / recurrent sites, multiple roots, internal samples, gaps) x 9 named "
+                "statistics and sample_count_stat (polarised or not) x site/branch/node x integer / 'trees' / 'sites' / no windows x span_normalise, random "
+                "window refinements, divergence_matrix with num_threads in {0,1,2,3,5,8}; allele_frequency_spectrum (1-2 sets, site/branch, polarised/folded), "
+                "Fst, genetic_relatedness (centre, polarised), general_stat with integer weights (3 summary functions, site/branch/node), "
+                "genealogical_nearest_neighbours (threads 0-3), mean_descendants, pair_coalescence_counts, Tree.rf_distance / kc_distance (lambda 0, 1), "
+                "LdCalculator r2 / r2_matrix / ts.ld_matrix on single-mutation sites, Tajimas_D (formula in floating point over TLC-validated ingredients); "
+                "non-trivial = some non-zero result")
     chk.assumptions = ["integer coordinates and times make every result an exact rational with the documented denominator; the harness scales and rounds, "
                        "asserting exactness", "races inside C code are only visible as differing results between thread counts (no TSan build)",
-                       "Fanout model bounded to <=6 items / <=5 threads"]
+                       "Fanout model bounded to <=6 items / <=5 threads",
+                       "pair coalescence: a pair joins at u when it comes from two different child subtrees of u (a sample does not coalesce with its own descendants)",
+                       "folded spectra: which of two complementary coordinates of equal total holds the mass is not constrained",
+                       "not covered: trait_covariance / trait_correlation / trait_linear_model, genetic_relatedness_weighted / _vector, proportion=True, "
+                       "time-windowed pair coalescence (floating point / linear algebra; see DESIGN 5)"]
     return chk.finish()
 
 
